@@ -68,7 +68,7 @@ def _layout(tier):
     L = 4 if tier == "quick" else 5
     nrand = 600 if tier == "quick" else 30000
     ngate = len(_prefixes(tier)) * 2 * 8
-    ninside = len(SITES) * 8 * (1 if tier == "quick" else 3)
+    ninside = len(SITES) * 8 * (2 if tier == "quick" else 3)
     novl = len(OVERLAPS) * 3
     nstorm = 48 if tier == "quick" else 4000
     return L, _nseq(L), nrand, ngate, ninside, novl, nstorm
@@ -117,7 +117,7 @@ def gen_case(rng, tier, i):
         rep, rest = divmod(i, len(SITES) * 8)
         site, x = divmod(rest, 8)
         return {"fam": "inside", "clock": ["float", "int", "duration"][rep % 3], "site": SITES[site], "x": CMDS[x],
-                "starter": ["start", "run_up_to_including", "step"][rep % 3] if rep else "start"}
+                "starter": ["start", "run_up_to_including", "step"][rep % 3]}
     i -= ninside
     if i < novl:
         return {"fam": "ovl", "clock": ["float", "int", "duration"][i % 3], "scenario": OVERLAPS[i // 3]}
